@@ -193,3 +193,50 @@ func H_kq_event_ends_watch() {
 	verifQuiesce()
 	verifAssert(verifOpenCount() == 0 && !verifQ.kqOpen && !verifQ.pipeROpen && !verifQ.pipeWOpen, "nothing stays open")
 }
+
+// An entry of a watched directory is overwritten by a rename (mv a b): the
+// per-entry watches stay internal - WatchList shows only what the user added -
+// and removing the directory's watch closes every descriptor.
+func H_kq_overwrite() {
+	verifQReset()
+	verifAddNode("/d", nDir, "")
+	verifAddNode("/d/a", nFile, "")
+	verifAddNode("/d/b", nFile, "")
+	wt, w := verifKqNew()
+	verifAssert(wt.Add("/d") == nil, "Add dir")
+	verifK1(w, " after Add")
+	verifNodeOf2x("/d/a").kind = nAbsent
+	verifRaise("/d/a", unix.NOTE_RENAME)
+	verifRaise("/d/b", unix.NOTE_DELETE)
+	verifRaise("/d", unix.NOTE_WRITE)
+	for round := 0; round < 6; round++ {
+		verifQuiesce()
+		for {
+			select {
+			case <-wt.Events:
+				continue
+			default:
+			}
+			break
+		}
+	}
+	verifK1(w, " after an entry was overwritten by rename")
+	l := wt.WatchList()
+	verifAssert(len(l) == 1 && l[0] == "/d", "WatchList shows only paths the user added, never the per-entry watches created internally")
+	verifAssert(wt.Remove("/d") == nil, "Remove dir")
+	verifKqEmpty(w, " after removing the directory watch")
+	verifAssert(len(wt.WatchList()) == 0, "nothing listed after everything was removed")
+	verifAssert(wt.Close() == nil, "Close")
+	verifQuiesce()
+	verifAssert(verifOpenCount() == 0 && !verifQ.kqOpen, "nothing stays open")
+	verifReach("kq-overwrite")
+}
+
+func verifNodeOf2x(path string) *verifNode {
+	for i := 0; i < verifQ.nnodes; i++ {
+		if verifQ.nodes[i].path == path {
+			return &verifQ.nodes[i]
+		}
+	}
+	return nil
+}
